@@ -101,7 +101,8 @@ CHECKS = {
             ASSUME, TECH + " + bounded run-time contracts", "DESIGN.md 3 C19"),
     "C20": ("other",
             "Deductive with output calls as ghost events: save_contour_coordinates (path, header, format, data), plot_2D_contour (closed polyline in order, swap_axis, scatter of sample / design conditions for None/True/array), "
-            "read_ec_benchmark_dataset. Other plot functions and byte-level round trips: bounded.",
+            "read_ec_benchmark_dataset (also read twice: every call reads the file), plot_dependence_functions (per conditional parameter: curve = dep(x) over the documented grid, markers = conditioning values x that parameter's own estimates, labels). "
+            "Other plot functions and byte-level round trips: bounded.",
             ASSUME + "np.savetxt, matplotlib and pandas do what their arguments say.", TECH + " + bounded run-time contracts", "DESIGN.md 3 C20"),
 }
 
